@@ -1,0 +1,22 @@
+//go:build verif
+
+// Contracts for package mustache/tokenizers (comment-only; read by /verif's VC generator).
+package tokenizers
+
+// literal text up to (not including) the next "{{" or the end of input
+//@ func (c *MustacheSpecialState) NextToken
+//@   requires c != nil && isScanner(scanner) && sc(scanner).position + 1 < len(sc(scanner).content)
+//@   requires forall i int :: 0 <= i && i < len(sc(scanner).content) ==> scalar(sc(scanner).content[i])
+//@   ensures[C04,C12] result != nil && isScanner(scanner) && sc(scanner).content == old(sc(scanner).content)
+//@   ensures[C04] spans(result.value, scanner, old(cur(scanner)), cur(scanner))
+//@   ensures[C12] result.line == L(seq(sc(scanner).content), old(cur(scanner))) && result.column == C(seq(sc(scanner).content), old(cur(scanner)))
+//@   assigns sc(scanner).position, sc(scanner).line, sc(scanner).column
+//@   nopanic
+//@   ensures[C10] result.typ == tokenizers.Special
+//@   loop 0
+//@     invariant isScanner(scanner) && sc(scanner).content == old(sc(scanner).content)
+//@     invariant old(sc(scanner).position) + 1 <= sc(scanner).position && sc(scanner).position <= len(sc(scanner).content)
+//@     invariant nextSymbol == chr(seq(sc(scanner).content), sc(scanner).position)
+//@     invariant spans(builder(tokenValue), scanner, old(cur(scanner)), sc(scanner).position)
+//@     invariant line == L(seq(sc(scanner).content), old(cur(scanner))) && column == C(seq(sc(scanner).content), old(cur(scanner)))
+//@     decreases len(sc(scanner).content) - sc(scanner).position
